@@ -43,4 +43,10 @@ theorem dependsMap_started (names : List String) :
     rw [ih]
     simp [dependsDefaults, hasKey, Val.lookup]
 
+theorem portEntries_maps (ign : Bool) (ms : List Val.KVs) (acc : List Val) :
+    portEntries ign (ms.map Val.map) acc = some (.ok (acc ++ ms.map Val.map)) := by
+  induction ms generalizing acc with
+  | nil => simp [portEntries]
+  | cons m r ih => simp [portEntries, ih]
+
 end CV.Short
